@@ -6,6 +6,21 @@ use ndarray::{Array1, Array2};
 use rand_xoshiro::rand_core::SeedableRng;
 use rand_xoshiro::Xoshiro256Plus;
 
+thread_local! {
+    /// data variant of the case being run on this thread (0 = the quick catalogue; the thorough
+    /// tier re-runs every case on further data sets): shifts every data seed
+    static VARIANT: std::cell::Cell<u64> = const { std::cell::Cell::new(0) };
+}
+pub fn set_variant(v: u64) {
+    VARIANT.with(|c| c.set(v));
+}
+pub fn variant() -> u64 {
+    VARIANT.with(|c| c.get())
+}
+fn vseed(seed: u64) -> u64 {
+    seed.wrapping_add(7919u64.wrapping_mul(variant()))
+}
+
 pub struct Lcg(pub u64);
 impl Lcg {
     pub fn next(&mut self) -> f64 {
@@ -26,7 +41,7 @@ pub fn cast1<F: Float>(a: &Array1<f64>) -> Array1<F> {
 
 /// n rows, p columns, k blobs; returns (records, blob id)
 pub fn blobs<F: Float>(n: usize, p: usize, k: usize, seed: u64) -> (Array2<F>, Array1<usize>) {
-    let mut g = Lcg(seed);
+    let mut g = Lcg(vseed(seed));
     let mut x = Array2::zeros((n, p));
     let mut y = Array1::zeros(n);
     for i in 0..n {
@@ -41,7 +56,7 @@ pub fn blobs<F: Float>(n: usize, p: usize, k: usize, seed: u64) -> (Array2<F>, A
 }
 
 pub fn regression<F: Float>(n: usize, p: usize, t: usize, seed: u64) -> (Array2<F>, Array2<F>) {
-    let mut g = Lcg(seed);
+    let mut g = Lcg(vseed(seed));
     let mut x = Array2::zeros((n, p));
     let mut y = Array2::zeros((n, t));
     for i in 0..n {
@@ -61,7 +76,7 @@ pub fn regression<F: Float>(n: usize, p: usize, t: usize, seed: u64) -> (Array2<
 
 /// non-negative count-like features for multinomial NB
 pub fn counts<F: Float>(n: usize, p: usize, k: usize, seed: u64) -> (Array2<F>, Array1<usize>) {
-    let mut g = Lcg(seed);
+    let mut g = Lcg(vseed(seed));
     let mut x = Array2::zeros((n, p));
     let mut y = Array1::zeros(n);
     for i in 0..n {
